@@ -71,15 +71,26 @@ func c03SCIONWorld(r *simcore.Run) any {
 	// timestamp option on that packet: the client's own receive timestamp counts), and a
 	// reply of the previous exchange with a changed origin, re-addressed to the attempt's
 	// port, reaches the client ahead of the genuine reply (rejected; nothing of it may stick)
-	var fwdPlan simnet.FaultPlan
+	var fwdPlan, cliPlan simnet.FaultPlan
 	staleRate := uint64(0)
-	if forwarder {
-		fwdPlan = w.net.Plan
-		fwdPlan.RxStampMissing = uint64(tp.Intn(500, "fwd-rxmiss"))
-		staleRate = uint64(tp.Intn(400, "stale-via-fwd"))
+	// (the client's own kernel transmit timestamp goes missing in some runs: see the IP half)
+	cliTxFaults := tp.Bool(1, 5, "clitx")
+	if forwarder || cliTxFaults {
+		fwdPlan, cliPlan = w.net.Plan, w.net.Plan
+		if forwarder {
+			fwdPlan.RxStampMissing = uint64(tp.Intn(500, "fwd-rxmiss"))
+			staleRate = uint64(tp.Intn(400, "stale-via-fwd"))
+		}
+		cliPlan.TxStampMissing = 200
 		w.net.PlanFor = func(d *simnet.Datagram, at *simnet.UDPConn) *simnet.FaultPlan {
 			if at != nil && at.Host() == w.cli && at.Local().Port() == scEndhost {
-				return &fwdPlan
+				if forwarder {
+					return &fwdPlan
+				}
+				return nil
+			}
+			if at != nil && at.Host() == w.cli && cliTxFaults {
+				return &cliPlan
 			}
 			return nil
 		}
@@ -214,6 +225,10 @@ func c03SCIONWorld(r *simcore.Run) any {
 		T1x, T2x := sc.InstantOf(ts[1], hint), sc.InstantOf(ts[2], hint)
 		desc := fmt.Sprintf("SCION exchange(request sent %v, reached server %v, reply left %v, receive-stamped %v) mode=%v forwarder=%v t1@%v t2@%v",
 			T0.Sub(r.Start()), e.qAtSrv.ArrivedAt.Sub(r.Start()), e.pSrv.SentAt.Sub(r.Start()), T3.Sub(r.Start()), ilResp, forwarder, T1x.Sub(r.Start()), T2x.Sub(r.Start()))
+		if e.q.TxStampFault != "" {
+			r.Probe("client-kernel-tx-stamp-missing")
+			return
+		}
 		if d := absDur(ts[0].Sub(w.cli.Clock.At(T0))); d > c03Eps {
 			r.Fail("C03", "scion/membership/t0", "t0 differs from the request's transmit time by %v; %s", d, desc)
 			return
